@@ -381,6 +381,85 @@ def _numeric_rows(v):
         and len({len(x) for x in v}) == 1
 
 
+def vary_arrays(mk: Maker, args, force=False):
+    """General classes of ARRAY arguments (plain and structured; the values stay what the factory built):
+    byte-order:swapped   the other byte order ('>f8' on a little-endian machine), every field of a structured array;
+    shape:*              degenerate shapes: one row, one column, 1x1, one row with a leading unit axis; single-field:
+                         a structured array reduced to its first field;
+    layout:*             Fortran-ordered, or a non-contiguous view (every second element of a buffer twice as large);
+    rows:*               table-like arguments (anything with >= 2 rows along axis 0: laser logs, point and offset tables,
+                         peak tables, lists of rows — and images) with the rows reversed, shuffled, or one row duplicated
+                         (not in sorted order any more, ties).
+    The transformations are independent, so their combinations occur (a swapped, single-field, one-row image).
+    Snapshots are byte-level (dtype string, shape, tobytes) as before."""
+    rng, feats = mk.rng, set()
+    if not (force or rng.random() < 0.4):
+        return feats
+    for k, v in list(args.items()):
+        if k in ("self", "cls"):
+            continue
+        if isinstance(v, list) and len(v) >= 2 and _numeric_rows(v) and rng.random() < 0.5:
+            how = rng.choice(["reversed", "shuffled", "duplicated"])
+            w = list(v)
+            if how == "reversed":
+                w.reverse()
+            elif how == "shuffled":
+                rng.shuffle(w)
+            else:
+                w.insert(rng.randrange(len(w)), w[rng.randrange(len(w))])
+            args[k] = w
+            feats.add("rows:" + how)
+            continue
+        if not isinstance(v, np.ndarray) or v.dtype.hasobject or v.ndim == 0 or v.size == 0:
+            continue
+        a = v
+        if a.dtype.names and len(a.dtype.names) > 1 and rng.random() < 0.4:
+            n0 = a.dtype.names[0]
+            b = np.empty(a.shape, dtype=[(n0, a.dtype[n0])])
+            b[n0] = a[n0]
+            a = b
+            feats.add("single-field")
+        if rng.random() < 0.5:
+            how = rng.choice(["one-row", "one-row", "one-column", "1x1", "unit-axis-one-row"])
+            if how == "one-row":
+                a = a[:1].copy()
+            elif how == "one-column" and a.ndim >= 2:
+                a = a[:, :1].copy()
+            elif how == "1x1":
+                a = a[(slice(0, 1),) * a.ndim].copy()
+            elif how == "unit-axis-one-row" and a.ndim == 2:
+                a = a[None, :1].copy()
+            else:
+                how = None
+            if how:
+                feats.add("shape:" + how)
+        if a.shape[0] >= 2 and rng.random() < 0.5:
+            how = rng.choice(["reversed", "shuffled", "duplicated"])
+            idx = list(range(a.shape[0]))
+            if how == "reversed":
+                idx.reverse()
+            elif how == "shuffled":
+                rng.shuffle(idx)
+            else:
+                idx[rng.randrange(len(idx))] = idx[rng.randrange(len(idx))]
+            a = a[idx].copy()
+            feats.add("rows:" + how)
+        if rng.random() < 0.5:
+            a = a.astype(a.dtype.newbyteorder())
+            feats.add("byte-order:swapped")
+        r = rng.random()
+        if r < 0.2 and a.ndim >= 2:
+            a = np.asfortranarray(a)
+            feats.add("layout:fortran")
+        elif r < 0.4:
+            base = np.repeat(a, 2, axis=a.ndim - 1)
+            a = base[..., ::2]
+            feats.add("layout:non-contiguous-view")
+        if a is not v:
+            args[k] = a
+    return feats
+
+
 def vary_arguments(mk: Maker, f, args, force_malformed=False):
     """General input classes on top of what the factories build (feature names returned):
     sequence-form:*   every list / tuple argument also as a tuple, a list, ONE ndarray (rows of numbers -> 2-d table, arrays
@@ -1189,6 +1268,13 @@ class C19(Prop):
         for name in sorted(self.funcs()):
             for a in (1,) if tier == "quick" else range(1, 9):
                 yield {"func": name, "aseed": a, "malformed": True}
+        # every function with an array / table argument: calls with the array classes forced (byte order, degenerate shapes,
+        # single field, layouts, row order)
+        for name, f in sorted(self.funcs().items()):
+            if any("ndarray" in (f["sig"].get(p) or "") or "list[tuple" in (f["sig"].get(p) or "") for p in f["params"]) \
+                    or name.endswith("sync_data_nwi_laser_log"):
+                for a in (1, 2) if tier == "quick" else range(1, 13):
+                    yield {"func": name, "aseed": a, "arrayform": True}
         # every two-call history `construct; member` run for real (mutators and setters with more argument seeds)
         for prod, h in sorted(self.history_index().items()):
             for m, kind in zip(h["members"], h["kinds"]):
@@ -1355,6 +1441,7 @@ class C19(Prop):
             args = self.paths(name, args, mk, tmp)
             if case["aseed"] != 0:
                 feats |= vary_arguments(mk, f, args, force_malformed=bool(case.get("malformed")))
+                feats |= vary_arrays(mk, args, force=bool(case.get("arrayform")))
             if case.get("overlap"):
                 overlaps = self.make_overlap(f, args, mk)
             wrong = self.check_annotations(f, args)
@@ -1517,6 +1604,7 @@ class C19(Prop):
             a = self.paths(name, a, mk, mk.tmp)
             if case["aseed"] != 0:
                 feats.update(x for x in vary_arguments(mk, f, a))
+                feats.update(x for x in vary_arrays(mk, a))
             wrong = self.check_annotations(f, a)
             if wrong:
                 raise core.InternalError(f"argument factory of {name} contradicts an annotation the translator trusts: {wrong}")
